@@ -98,6 +98,7 @@ structure Req where
   parkedAt : Option String := none    -- armed hook it is parked at
   parkSeq : Nat := 0                  -- order of parking (hooks release first-come first-served)
   rtDeadline : Option Nat := none     -- when the target timeout cuts this in-flight request (504)
+  started : Option Nat := none        -- the status line and headers already went to the client (a streamed response)
 deriving Repr
 
 /-- one target's drain inside a command -/
@@ -348,7 +349,7 @@ def reqStep (w : World) (r : Req) : Option World :=
       else none
   | .done => none
 
-/-- the target answers a held request -/
+/-- the target answers a held request (if it had already sent its headers, that status stands) -/
 def respond (w : World) (rid : Nat) (status : Nat) : World :=
   match getR w rid with
   | none => w
@@ -357,7 +358,17 @@ def respond (w : World) (rid : Nat) (status : Nat) : World :=
     | .inflight tid =>
       match getT w tid with
       | none => w
-      | some t => finishReq (setT w { t with inflight := t.inflight.erase rid }) r status (showB t.name)
+      | some t => finishReq (setT w { t with inflight := t.inflight.erase rid }) r (r.started.getD status) (showB t.name)
+    | _ => w
+
+/-- the target sends its status line and headers and keeps the response open (an event stream): the client has the
+    status from now on, and the target (response-header) timeout no longer applies -/
+def respondHdr (w : World) (rid : Nat) (status : Nat) : World :=
+  match getR w rid with
+  | none => w
+  | some r =>
+    match r.phase with
+    | .inflight _ => setR w { r with started := some (r.started.getD status), rtDeadline := none }
     | _ => w
 
 /-- a drain cancels a request that is still in flight -/
@@ -369,7 +380,11 @@ def cancelByDrain (w : World) (rid : Nat) : World :=
     | .inflight tid =>
       match getT w tid with
       | none => w
-      | some t => finishReq (setT w { t with inflight := t.inflight.erase rid }) r 504 "-"
+      | some t =>
+        -- a response that had already started is cut short: the client keeps the status it got
+        match r.started with
+        | some st => finishReq (setT w { t with inflight := t.inflight.erase rid }) r st (showB t.name)
+        | none => finishReq (setT w { t with inflight := t.inflight.erase rid }) r 504 "-"
     | _ => w
 
 /-! ### gates -/
@@ -591,6 +606,7 @@ inductive Op
   | req (r : Nat) (svc : Bytes) (cookie : Bytes) (hc : Bool)
   | release (label key : String)
   | respond (r : Nat) (status : Nat)
+  | respondHdr (r : Nat) (status : Nat)
   | advance (ns : Nat)
 deriving Repr
 
@@ -712,6 +728,7 @@ def applyOp (w : World) : Op → World
   | .req r svc ck hc => settle fuel { w with reqs := w.reqs ++ [{ id := r, svc := svc, cookie := ck, hc := hc }] }
   | .release l k => settle fuel (release w l k)
   | .respond r st => settle fuel (respond w r st)
+  | .respondHdr r st => settle fuel (respondHdr w r st)
   | .advance d => advance fuel w (w.now + d)
 
 /-- the observation printed after a schedule line -/
